@@ -323,8 +323,8 @@ class Exec:
                     yield Unknown('elem'), s2
             return
         if k == 'throw':
-            for v, s in (self.nv(e['e'], st, fr, T) if e.get('e') else [(None, st)]):
-                yield Thrown(e.get('tt', 'rethrow')), s
+            # the operand (an exception object under construction) is not evaluated: it cannot touch the cursor
+            yield Thrown(e.get('tt', 'rethrow')), st
             return
         yield Unknown(k), st
 
